@@ -45,7 +45,7 @@ Inductive scheme := PC | PCrk4 | PCrk | TdvpMuVmf | TdvpVmf | TdvpMuCmf | TdvpPs
 Inductive opname :=
   | New | Copy | MetacopyFill | ToComplex | Conj | ConjTrans | Scale | Add | Distance | Apply | Contract
   | CompressCopy | CanoCopy | Expectation | Expectations | Rdm | Entropy | Norm | Dense
-  | Evolve (s : scheme) | EvolveDispatch | EvolveExact | FromMps | CompressedSum
+  | Evolve (s : scheme) | EvolveDispatch | EvolveExact | FromMps | CompressedSum | Expand
   | ScaleIn | ToComplexIn | CanonicaliseIn | CompressIn | NormalizeIn | SetItem | SetCoeff | PokeSites
   | Optimize.
 
@@ -61,7 +61,7 @@ Definition chain_sig (o : opname) : sig :=
   | EvolveExact | EvolveDispatch => mkSig Derive [] [] []
   | Conj => mkSig Derive [] [] [FSite]            (* ndarray.conj() of a real buffer is the buffer itself *)
   | ConjTrans => mkSig Derive [] [] [FSite]       (* moveaxis(...).conj(): a transposed view for real operators *)
-  | Add | CompressedSum => mkSig Derive fold_fields [] []
+  | Add | CompressedSum | Expand => mkSig Derive fold_fields [] []   (* expand_bond_dimension: mps + expander folds *)
   | Distance => mkSig Observe fold_fields [] []
   | Expectation | Expectations | Rdm | Entropy | Norm | Dense => mkSig Observe [] [] []
   | Evolve PC | Evolve PCrk4 | Evolve PCrk => mkSig Derive fold_fields [] []
@@ -82,7 +82,7 @@ Definition chain_sig (o : opname) : sig :=
 Definition tree_sig (o : opname) : sig :=
   match o with
   | New | Copy | MetacopyFill | ToComplex | Scale | Add | Apply | Contract | CompressCopy | CanoCopy
-  | CompressedSum | Evolve _ | EvolveDispatch => mkSig Derive [] [] []
+  | CompressedSum | Expand | Evolve _ | EvolveDispatch => mkSig Derive [] [] []
   | Distance | Expectation | Expectations | Rdm | Entropy | Norm | Dense => mkSig Observe [] [] []
   | ScaleIn | ToComplexIn => mkSig Mutate [] [FSite; FLabel] []
   | CanonicaliseIn | CompressIn => mkSig Mutate [] [FSite; FLabel] []
@@ -341,6 +341,11 @@ Definition op_rows (w : world) (o : opname) : list rowkey :=
                      ("MpDm.apply", "", "self", Operand); ("MpDm.apply", "", "mp", Operand)]
   | Chain, Contract => [("Mpo.contract", "", "self", Operand); ("Mpo.contract", "", "mps", Operand)]
   | Chain, FromMps => [("MpDm.from_mps", "", "mps", Operand)]
+  | Chain, Expand => [("Mps.expand_bond_dimension", "", "self", Operand); ("Mps.expand_bond_dimension", "", "hint_mpo", Operand);
+                      ("@expand_bond_dimension", "", "mps", Operand); ("@expand_bond_dimension", "", "hint_mpo", Operand);
+                      ("@expand_bond_dimension_general", "", "mps", Operand); ("@expand_bond_dimension_general", "", "hint_mpo", Operand);
+                      ("@expand_bond_dimension_general", "", "ex_mps", Operand)]
+  | Tree, Expand => [("tree@expand_bond_dimension_general", "", "mps", Operand); ("tree@expand_bond_dimension_general", "", "hint_mpo", Operand)]
   | Tree, Copy | Tree, CanoCopy | Tree, CompressCopy => [("TTNS.copy", "", "self", Operand)]
   | Tree, MetacopyFill => [("TTNS.metacopy", "", "self", Operand)]
   | Tree, ToComplex => [("TTNS.to_complex", "inplace=False", "self", Operand)]
@@ -365,7 +370,7 @@ Definition covered_ops : list (world * opname) :=
   [(Chain, Copy); (Chain, CanoCopy); (Chain, CompressCopy); (Chain, MetacopyFill); (Chain, ToComplex); (Chain, ToComplexIn);
    (Chain, Conj); (Chain, ConjTrans); (Chain, Scale); (Chain, ScaleIn); (Chain, Add); (Chain, Distance);
    (Chain, CanonicaliseIn); (Chain, CompressIn); (Chain, NormalizeIn); (Chain, Expectation); (Chain, Expectations);
-   (Chain, Rdm); (Chain, Entropy); (Chain, Apply); (Chain, Contract); (Chain, FromMps);
+   (Chain, Rdm); (Chain, Entropy); (Chain, Apply); (Chain, Contract); (Chain, FromMps); (Chain, Expand); (Tree, Expand);
    (Tree, Copy); (Tree, CanoCopy); (Tree, CompressCopy); (Tree, MetacopyFill); (Tree, ToComplex); (Tree, ToComplexIn);
    (Tree, Scale); (Tree, ScaleIn); (Tree, Add); (Tree, Apply); (Tree, Contract); (Tree, CanonicaliseIn); (Tree, CompressIn);
    (Tree, NormalizeIn); (Tree, Expectation); (Tree, Rdm); (Tree, Entropy)].
